@@ -712,7 +712,11 @@ func castArr(opts *options, v value) ([]value, Error) {
 		}
 		leave()
 		if err != nil {
-			return nil, raiseMissingMsg(ref.ctx.getParent(), ref.ctx.field, err.Error())
+			// reported against the setting holding the reference, with the
+			// source that setting was loaded from (its parent - the root for
+			// a top-level setting - has none)
+			ctx := ref.Context()
+			return nil, raisePathErr(ErrMissing, ref.meta(), err.Error(), ctx.path("."))
 		}
 
 		if sub, ok := unrefed.(cfgSub); ok {
